@@ -47,7 +47,7 @@ func rangeCalls(fn *ssa.Function, prm *ssa.Parameter) []*ssa.Call {
 			continue
 		}
 		cal := StaticCallee(&call.Call)
-		if cal == nil || cal.Name() != "withinRange" || recvNamed(cal) != recvNamed(fn) || len(call.Call.Args) != 2 {
+		if cal == nil || fnName(cal) != "withinRange" || recvNamed(cal) != recvNamed(fn) || len(call.Call.Args) != 2 {
 			continue
 		}
 		if stripChange(call.Call.Args[0]) == ssa.Value(fn.Params[0]) && call.Call.Args[1] == ssa.Value(prm) {
@@ -77,7 +77,7 @@ func isSizeTermOf(p *Prog, fn *ssa.Function, v ssa.Value) bool {
 			return isF
 		}
 		cal := StaticCallee(&call.Call)
-		return cal != nil && cal.Name() == "Size" && len(call.Call.Args) == 1 && stripChange(call.Call.Args[0]) == ssa.Value(fn.Params[0])
+		return cal != nil && fnName(cal) == "Size" && len(call.Call.Args) == 1 && stripChange(call.Call.Args[0]) == ssa.Value(fn.Params[0])
 	}
 	if _, ok := recvField(fn, v); ok && isLoadOfField(v) && isIntType(v.Type()) {
 		return true
